@@ -66,13 +66,12 @@ class _DateTime(_dt.datetime):
 
     @classmethod
     def now(cls, tz=None):
-        if tz is None:
-            return cls.utcfromtimestamp(now())
+        # naive local time, as the real one (the process zone is UTC unless a case sets another one with process_tz)
         return cls.fromtimestamp(now(), tz)
 
     @classmethod
     def today(cls):
-        return cls.utcfromtimestamp(now())
+        return cls.fromtimestamp(now())
 
 
 class _DatetimeModuleProxy(types.ModuleType):
@@ -87,6 +86,35 @@ class _DatetimeModuleProxy(types.ModuleType):
 
 _TIME = _TimeProxy()
 _DTMOD = _DatetimeModuleProxy()
+
+
+class process_tz(object):
+    """with process_tz("EET-3"): ...  - the process time zone (POSIX TZ string) for the duration of the block; None leaves it alone.
+    SAML instants are UTC, so nothing the library decides may depend on it."""
+
+    def __init__(self, tz):
+        self.tz = tz
+
+    def __enter__(self):
+        import os
+        if self.tz:
+            self.old = os.environ.get("TZ")
+            os.environ["TZ"] = self.tz
+            _time.tzset()
+        return self
+
+    def __exit__(self, *exc):
+        import os
+        if self.tz:
+            if self.old is None:
+                os.environ.pop("TZ", None)
+            else:
+                os.environ["TZ"] = self.old
+            _time.tzset()
+        return False
+
+
+ZONES = [None, "EET-3", "PST8", "IST-5:30", "NZST-12"]
 
 
 def install():
